@@ -152,4 +152,37 @@ static inline void iora_tcache_emplace(iora_tcache *c, iora_key k, iora_strp e)
 { (void)c; (void)k; IORA_ASSERT(e != NULL && e->present && e->read_ok, "cache invariant: only templates read under the full check are cached"); }
 #define IORA_VIEW_OF(sp) (sp)
 
+/* ---- ::read and the read loop of readFile: the file is a byte stream, the buffer a window onto it ---- */
+#include <errno.h>
+#include <sys/types.h>
+#undef errno
+int G_errno;
+#define errno G_errno
+#define IORA_FILE_MAX ((size_t)1 << 62)      /* stated bound on the number of bytes a file delivers */
+size_t G_file_pos;                           /* kernel file offset = number of bytes delivered so far */
+size_t G_chunk_lo, G_chunk_n;                /* stream position / length of the bytes the last successful read() left in the buffer */
+int G_read_calls; ssize_t G_last_read;       /* read() calls, last result */
+bool G_eintr_seen, G_short_seen;
+typedef struct { size_t cap; } iora_rbuf;    /* std::vector<char> buf(N): only data()/size() are used */
+static inline iora_rbuf iora_rbuf_make(size_t n) { iora_rbuf b; b.cap = n; return b; }
+static inline const iora_rbuf *iora_rbuf_data(const iora_rbuf *b) { return b; }
+static inline size_t iora_rbuf_size(const iora_rbuf *b) { return b->cap; }
+/* read(fd, buf, count): -1 with any errno, 0 at end of file, or ANY k in 1..count (short reads) */
+static inline ssize_t iora_sys_read(int fd, const iora_rbuf *buf, size_t count)
+{
+  (void)fd; IORA_ASSERT(count >= 1 && count <= buf->cap, "read(2) count within the buffer");
+  if (G_read_calls < 1000000) G_read_calls++;
+  int kind = nondet_int();
+  if (kind == 0) { G_last_read = 0; return 0; }
+  if (kind < 0) { G_errno = nondet_int(); if (G_errno == EINTR) G_eintr_seen = true; G_last_read = -1; return -1; }
+  size_t k = nondet_unsigned(); IORA_ASSUME(k >= 1 && k <= count && k <= IORA_FILE_MAX - G_file_pos);
+  if (k < count) G_short_seen = true;
+  G_chunk_lo = G_file_pos; G_chunk_n = k; G_file_pos += k; G_last_read = (ssize_t)k; return (ssize_t)k;
+}
+/* std::string data as a stream interval [0, n): append(buf, k) must append exactly the bytes the last read delivered, at the right position */
+typedef struct { size_t n; } iora_fstr;
+#define iora_fstr_DEFAULT ((iora_fstr){0})
+static inline void iora_fstr_append(iora_fstr *d, const iora_rbuf *buf, size_t k)
+{ (void)buf; IORA_ASSERT(k == G_chunk_n && d->n == G_chunk_lo, "RL1 exactly the bytes of the last read are appended, at the stream position they came from (none lost, duplicated or reordered)");
+  d->n += k; G_chunk_n = 0; }
 #endif
